@@ -59,3 +59,7 @@ pub fn is_open(id: &str) -> bool {
 pub fn route_history(_h: &Hist) -> Option<String> {
     None
 }
+
+pub fn route_mixed(_c: &crate::mixed::Mixed) -> Option<String> {
+    None
+}
